@@ -42,15 +42,25 @@ feature calt {
 } calt;
 feature rclt { sub b e' lookup MULT; rsub [a b]' f by [a.rev b.rev]; } rclt;
 feature clig { ignore sub f a' b; sub a' b by a.alt2; } clig;
+lookup ALTF { sub f by f.alt; sub e by e.alt2; sub d by d.alt2; } ALTF;
+feature dlig { sub e' f' lookup ALTF; sub [c d]' [d f]' lookup ALTF [a b]; } dlig;
 """
-CTX_GLYPHS = ["a", "b", "c", "d", "e", "f", "a.alt", "b.alt", "c_d", "e.one", "e.two", "c.alt", "d.alt", "a.rev", "b.rev", "a.alt2", "unused"]
+CTX_GLYPHS = ["a", "b", "c", "d", "e", "f", "a.alt", "b.alt", "c_d", "e.one", "e.two", "c.alt", "d.alt", "a.rev", "b.rev", "a.alt2", "f.alt", "e.alt2", "d.alt2", "unused"]
 
 # ---- GPOS: single 1/2, pair 1/2 (both value records, class 0 rows), contextual positioning --------
 FEA_GPOS = LANGSYS + """
 @L = [a b c];
 @R = [d e];
 lookup SP { pos e <0 0 30 0>; } SP;
+lookup KCLS {
+  pos [a b] [c d] 16;
+  pos [e] [f] -21;
+  pos [a b] [f] 8;
+  pos [e] [c d] -9;
+  pos [c] [a] 4;
+} KCLS;
 feature kern {
+  lookup KCLS;
   pos a b -40;
   pos a <5 0 -20 0> d <7 0 0 0>;
   pos f a 33;
@@ -266,6 +276,21 @@ def lookup_kinds(font):
     return sorted(kinds)
 
 
+def references_missing_glyphs(data, idx=-1):
+    import re
+
+    f = TTFont(io.BytesIO(data), fontNumber=idx)
+    order = set(f.getGlyphOrder())
+    names = set()
+    for tag in ("GSUB", "GPOS", "GDEF"):
+        if tag in f:
+            walk_glyph_names(f[tag].table, names)
+    cm, uvs = unicode_map(f)
+    names.update(cm.values())
+    names.update(g for g in uvs.values() if g is not None)
+    return any(re.match(r"^glyph\d{5,}$", x) and x not in order for x in names)
+
+
 def to_sfnt(data, idx=-1):
     f = TTFont(io.BytesIO(data), fontNumber=idx)
     f.flavor = None
@@ -291,6 +316,8 @@ def corpus_fonts(tier, seed):
             continue
         if not (f.getBestCmap() or {}):
             continue
+        if references_missing_glyphs(data, idx):
+            continue  # layout tables name glyph ids >= numGlyphs: malformed on purpose
         if corpus.is_aots(name):
             kinds = lookup_kinds(f)
             if not kinds and "cmap" not in name:
@@ -380,7 +407,7 @@ def feature_tags(font):
     for tag in ("GSUB", "GPOS"):
         tags = set()
         if tag in font and font[tag].table.FeatureList:
-            tags = {fr.FeatureTag for fr in font[tag].table.FeatureList.FeatureRecord}
+            tags = {str(fr.FeatureTag) for fr in font[tag].table.FeatureList.FeatureRecord}
         out[tag] = tags
     return out
 
@@ -390,9 +417,9 @@ def script_tags(font):
     for tag in ("GSUB", "GPOS"):
         if tag in font and font[tag].table.ScriptList:
             for sr in font[tag].table.ScriptList.ScriptRecord:
-                tags.add(sr.ScriptTag)
+                tags.add(str(sr.ScriptTag))
                 for ls in sr.Script.LangSysRecord:
-                    tags.add(sr.ScriptTag + "." + ls.LangSysTag)
+                    tags.add(str(sr.ScriptTag) + "." + str(ls.LangSysTag))
     return tags
 
 
